@@ -34,7 +34,8 @@ H_TABLE = dict(TABLE, vboom=dict(kind='internal', params=[]), valboom=dict(kind=
 INVALID_ELEMS = [1, {}, {'jsonrpc': '2.0', 'method': 1, 'id': 7}, {'jsonrpc': '2.0', 'method': 'ok', 'params': None, 'id': 8},
                  {'jsonrpc': '2.0', 'method': 'ok', 'params': 0}]
 ID_ALPHABET = [1, '1', 0, '', -1, '__absent__', None]
-DISPS = ['sync', 'async', 'async-seq', 'async-wrapped', 'sync-custom', 'async-custom', 'sync-mw', 'async-mw', 'async-conc2', 'sync-pd', 'async-pd']
+DISPS = ['sync', 'async', 'async-seq', 'async-wrapped', 'sync-custom', 'async-custom', 'sync-mw', 'async-mw', 'async-conc2', 'sync-pd', 'async-pd',
+         'sync-log', 'async-log']          # -log: served while the pjrpc loggers are enabled for DEBUG
 
 
 def elem(kind, id):
@@ -163,6 +164,9 @@ def run_late(case, rec):
     for t in texts:
         o = observe(s, t)
         rec.transitions += 1
+        if o['raised'] or o['problem']:
+            rec.violation('C02:late:%s' % ('raised' if o['raised'] else 'malformed'), case, expected='a response document', observed=o['raised'] or o['problem'])
+            return 'bad'
         codes = [e.get('error', {}).get('code') for e in (o['answer'] if isinstance(o['answer'], list) else [o['answer']])] if o['answer'] is not NOTHING else []
         if log or any(c != -32601 for c in codes):
             rec.violation('C02:late:a method that does not exist yet was executed / not answered with -32601', case, expected=-32601, observed=dict(answer=o['answer'], log=list(log)))
